@@ -25,6 +25,7 @@
 -/
 import ICal.Lemmas.Encode
 import ICal.Props.C01
+import ICal.Lemmas.BodiesAdd
 namespace ICal.C02
 open ICal.Enc
 
@@ -435,5 +436,18 @@ example : (items true sampleTree).map (fun it => (it.name, it.text)) =
      ("DTSTART".toList, "20200229".toList), ("COMMENT".toList, "a\\, b".toList), ("COMMENT".toList, "c".toList),
      ("BEGIN".toList, "VALARM".toList), ("TRIGGER".toList, "-PT15M".toList), ("END".toList, "VALARM".toList),
      ("END".toList, "VEVENT".toList), ("END".toList, "VCALENDAR".toList)] := by decide +kernel
+
+/-! ### `Component.add` as regenerated (wave 6)
+
+`Bodies.componentAddP` is the translated `Component.add(name, value, parameters)` with the pieces of ICal/Model/AddPieces.lean
+(`Bodies.liftEnc` carries the model's results, its marker `unmodelled` as `Exc.fuel`). -/
+
+/-- the translated `add` is the model's `addProp`: UTC forcing, element-wise or whole encoding, accumulation -/
+theorem body_component_add (props : List Entry) (name : Str) (a : PyArg) (upd : List (Str × Option PVal)) :
+    Bodies.componentAddP props name a upd = Bodies.liftEnc (addProp props name a upd) := Bodies.add_eq props name a upd
+
+/-- its "set value" stage alone is the model's `accumulate` -/
+theorem body_component_add_accumulate (props : List Entry) (name : Str) (st : Stored) :
+    Bodies.setStage props name (Bodies.storedU st) = .ok (accumulate props (upper name) st) := Bodies.setStage_eq props name st
 
 end ICal.C02
